@@ -27,7 +27,7 @@ def splitter_kind(ttype, value):
         return 'ws'
     if ttype not in T.Keyword:
         return 'other'
-    u = value.upper()
+    u = ' '.join(value.upper().split())
     if ttype is T.Keyword.DDL and u.startswith('CREATE'):
         return 'create'
     m = {'DECLARE': 'declare', 'BEGIN': 'begin', 'END': 'end', 'IF': 'if', 'FOR': 'for',
@@ -35,7 +35,7 @@ def splitter_kind(ttype, value):
          'END LOOP': 'endloop', 'END FOR': 'endwhile'}
     if u in m:
         return m[u]
-    if ttype is T.Keyword and value.split()[0] == 'GO':
+    if ttype is T.Keyword and value.split()[0].upper() == 'GO':
         return 'go'
     return 'kw'
 
